@@ -43,7 +43,7 @@ def translate(repo: Path) -> str:
         fail(node, "chain must end with `else: raise ...`")
     rows = "; ".join(f"({lo}, {hi}, {w})" for lo, hi, w in bands)
     return (HEADER +
-            "From Coq Require Import ZArith List.\nFrom PyxelV Require Import Model.Adc.\n"
+            "From Coq Require Import ZArith List.\nFrom PyxelV Require Import Model.Adc Model.AdcHist.\n"
             "Import ListNotations.\nOpen Scope Z_scope.\n"
             f"Definition src_dtype_chain : dtype_chain := [{rows}].\n"
             + wrappers(repo))
@@ -212,6 +212,51 @@ def _wrapper(tree, fname, apply_name, want):
     return res, guards
 
 
+PARTS = {"characteristics": "PCharacteristics", "signal": "PSignal", "geometry": "PGeometry", "image": "PImage"}
+
+
+def _touch(tree, fname):
+    """Which parts of the detector object the body of a detector-level model reads and writes (first attribute after
+    the detector parameter; the bare object used in any other way counts as the whole detector)."""
+    fn = find_func(tree, fname)
+    det = fn.args.args[0].arg
+    parent = {}
+    for n in ast.walk(fn):
+        for ch in ast.iter_child_nodes(n):
+            parent[ch] = n
+    reads, writes = [], []
+
+    def add(lst, part):
+        if part not in lst:
+            lst.append(part)
+
+    for n in ast.walk(fn):
+        if not (isinstance(n, ast.Name) and n.id == det):
+            continue
+        if not isinstance(n.ctx, ast.Load):
+            add(writes, "PWhole")
+            continue
+        p = parent.get(n)
+        if not (isinstance(p, ast.Attribute) and p.value is n):
+            add(reads, "PWhole")
+            continue
+        part = PARTS.get(p.attr, "POtherPart")
+        top = p
+        while True:
+            q = parent.get(top)
+            if isinstance(q, (ast.Attribute, ast.Subscript)) and q.value is top:
+                top = q
+            else:
+                break
+        if isinstance(top.ctx, (ast.Store, ast.Del)):
+            add(writes, part)
+            if isinstance(parent.get(top), ast.AugAssign) or top is p:
+                add(reads, part)          # `x.image.array += ...` reads too; `detector.image = ...` replaces a part
+        else:
+            add(reads, part)
+    return f"{{| t_reads := [{'; '.join(reads)}]; t_writes := [{'; '.join(writes)}] |}}"
+
+
 def _b(x):
     return "true" if x else "false"
 
@@ -232,7 +277,11 @@ def wrappers(repo: Path) -> str:
                     ["signal_2d", "num_rows", "num_cols", "min_volt", "max_volt", "adc_bits"])
     c, g = _wrapper(parse(repo, base + "sar_adc_with_noise.py"), "sar_adc_with_noise", "apply_sar_adc_with_noise",
                     ["signal_2d", "num_rows", "num_cols", "strengths", "noises", "max_volt", "adc_bits"])
-    return (
+    touches = (
+        f"Definition src_simple_touch : touch := {_touch(parse(repo, base + 'simple_adc.py'), 'simple_adc')}.\n"
+        f"Definition src_sar_touch : touch := {_touch(parse(repo, base + 'sar_adc.py'), 'sar_adc')}.\n"
+        f"Definition src_sar0_touch : touch := {_touch(parse(repo, base + 'sar_adc_with_noise.py'), 'sar_adc_with_noise')}.\n")
+    return touches + (
         f"Definition src_simple_wiring : simple_wiring := {{| sw_signal := {_s(a['signal'])}; sw_bits := {_s(a['bit_resolution'])}; "
         f"sw_vmin := {_s(a['voltage_min'])}; sw_vmax := {_s(a['voltage_max'])}; sw_dtype := {_dt(a['dtype'])}; "
         f"sw_store_image := true |}}.\n"
@@ -248,7 +297,7 @@ def wrappers(repo: Path) -> str:
 # the last accepted shape; used only to keep a model available for the failing-input search when
 # the translation itself fails (the failed translation is already a broken obligation)
 FALLBACK = (HEADER +
-            "From Coq Require Import ZArith List.\nFrom PyxelV Require Import Model.Adc.\n"
+            "From Coq Require Import ZArith List.\nFrom PyxelV Require Import Model.Adc Model.AdcHist.\n"
             "Import ListNotations.\nOpen Scope Z_scope.\n"
             "Definition src_dtype_chain : dtype_chain := [(1, 8, 8); (9, 16, 16); (17, 32, 32); (33, 64, 64)].\n"
             "Definition src_simple_wiring : simple_wiring := {| sw_signal := FromSignal; sw_bits := FromBits; "
@@ -259,4 +308,7 @@ FALLBACK = (HEADER +
             "rw_store_image := true |}.\n"
             "Definition src_sar0_wiring : sar0_wiring := {| nw_signal := FromSignal; nw_rows := FromRows; "
             "nw_cols := FromCols; nw_strengths := FromStrengths; nw_noises := FromNoises; nw_vmax := FromRangeHi; "
-            "nw_bits := FromBits; nw_guard_strengths := true; nw_guard_noises := true; nw_store_image := true |}.\n")
+            "nw_bits := FromBits; nw_guard_strengths := true; nw_guard_noises := true; nw_store_image := true |}.\n"
+            "Definition src_simple_touch : touch := {| t_reads := [PCharacteristics; PSignal]; t_writes := [PImage] |}.\n"
+            "Definition src_sar_touch : touch := {| t_reads := [PCharacteristics; PSignal; PGeometry]; t_writes := [PImage] |}.\n"
+            "Definition src_sar0_touch : touch := {| t_reads := [PCharacteristics; PSignal; PGeometry]; t_writes := [PImage] |}.\n")
